@@ -155,7 +155,7 @@ def prim_case(spec):
 
 def run(res):
     quick = res.tier == "quick"
-    n_scene = 12 if quick else 160
+    n_scene = 12 if quick else 400
     modes = ["short", "tiny", "long", "short"]
     specs = [dict(seed=res.seed, idx=i, mode=modes[i % 4], max_patches=(20 if quick else 36)) for i in range(n_scene)]
     for r in fw.run_parallel(scene_case, specs):
